@@ -168,6 +168,11 @@ class Replay:
         kw = {}
         if self.kind == 'remote':
             kw['host'] = self.addr
+        if self.job.get('ownrun'):       # a subclass that overrides run(): no target, run=True
+            self.w = t.OWNRUN[self.kind](None, args=args, kwargs={k: self.wrap(v) for k, v in self.job['dkw']},
+                                         name=self.name, userid='u', run=True, results_pipe=self.new_pipe(), **kw)
+            self.begin_inc()
+            return
         self.w = self.cls()(t.echo_slow if self.job.get('slow') else t.echo_mut if self.mut else t.echo, args=args,
                             kwargs={k: self.wrap(v) for k, v in self.job['dkw']},
                             name=self.name, userid='u', results_pipe=self.new_pipe(), **kw)
@@ -181,7 +186,7 @@ class Replay:
 
     def begin_inc(self):
         w = self.w
-        inc = dict(enq=[], raw=[], late=[], calls=[], bempty=[], hung=[], first='none', alive0='T' if w.is_alive() else 'F',
+        inc = dict(enq=[], raw=[], late=[], calls=[], bempty=[], hung=[], got=[], first='none', alive0='T' if w.is_alive() else 'F',
                    waited='none', result={'k': 'na', 'n': 0}, fault='none', id=self.idnum(), name=str(w.name),
                    userid=str(w.userid), endk='final', oldos='na', rraised=[])
         self.incs.append(inc)
@@ -316,16 +321,30 @@ class Replay:
             return out
         if op in ('nextnb', 'nextb'):
             try:
-                w.next_result(block=(op == 'nextb'))
+                v = w.next_result(block=(op == 'nextb'))
+                inc['got'].append(proj_value(v, self.mods['big']))
                 return 'val'
             except Empty:
                 if op == 'nextb':       # a blocking read that signals the end of the stream
                     inc['bempty'].append({'nread': sum(1 for m in inc['raw'] if m['f'] == 'T'), 'nenq': len(inc['enq'])})
                 return empty_kind()
         if op == 'iter':                # results_iter(): blocking reads until the end of the stream is signalled
-            n = sum(1 for _ in w.results_iter())
+            n = 0
+            for v in w.results_iter():
+                inc['got'].append(proj_value(v, self.mods['big']))
+                n += 1
             inc['bempty'].append({'nread': sum(1 for m in inc['raw'] if m['f'] == 'T'), 'nenq': len(inc['enq'])})
             return 'vals:%d' % n
+        if op == 'iter1':               # results_iter(maxitems=1): exactly one blocking read
+            vs = list(w.results_iter(maxitems=1))
+            for v in vs:
+                inc['got'].append(proj_value(v, self.mods['big']))
+            if len(vs) == 1:
+                return 'val'
+            if len(vs) == 0:
+                inc['bempty'].append({'nread': sum(1 for m in inc['raw'] if m['f'] == 'T'), 'nenq': len(inc['enq'])})
+                return empty_kind()
+            return 'vals:%d' % len(vs)
         if op == 'waitS':               # wait(timeout) that is too short for the work still queued
             self.late = True
             return 'T' if w.wait(timeout=0.05) else 'F'
@@ -350,6 +369,7 @@ class Replay:
                         pass
                 out = 'val'
                 crec['v'] = proj_value(v, self.mods['big'])
+                inc['got'].append(crec['v'])
             except WCE:
                 out = 'WCE'
             except Empty:
@@ -445,11 +465,13 @@ class Replay:
             inc['error'] = type(w.error).__name__ if w.error is not None else 'none'
         except Exception as e:  # noqa
             inc['error'] = 'accessor-raised:' + type(e).__name__
+        n0 = len(inc['raw'])
         for _ in range(64):
             try:
                 self.ep.get_nowait()
             except queue.Empty:
                 break
+        inc['got'] += [m['v'] for m in inc['raw'][n0:] if m['f'] == 'T']      # what the final drain obtained
 
     def body(self):
         try:
@@ -556,7 +578,8 @@ class Replay:
         rec = {'id': str(self.job['id']),
                'scn': {'kind': self.kind, 'dtype': self.job['dtype'], 'dargs': self.job['dargs'],
                        'dkw': [list(p) for p in self.job['dkw']], 'mut': 'T' if self.mut else 'F',
-                       'pipe': self.job.get('pipe', 'own'), 'mode': self.job.get('mode', 'settle')},
+                       'pipe': self.job.get('pipe', 'own'), 'mode': self.job.get('mode', 'settle'),
+                       'ownrun': 'T' if self.job.get('ownrun') else 'F'},
                'obs': {'incs': self.incs}}
         return {'id': self.job['id'], 'rec': rec if self.incs else None, 'outs': self.outs,
                 'notes': self.notes, 'finished': self.finished}
@@ -748,9 +771,10 @@ def prefetch(module, specs):
     from concurrent.futures import ThreadPoolExecutor
 
     def one(s):
-        name, cfg_text = s
+        name, cfg_text = s[0], s[1]
         try:
-            return name, cfg_text, tlc.run(module, cfg_text=cfg_text, name=name, must_complete=False, workers=2)
+            return name, cfg_text, tlc.run(module, cfg_text=cfg_text, name=name, must_complete=False, workers=s[2] if len(s) > 2 else 2,
+                                           timeout=3000)
         except Exception:  # noqa - _sr() will run it in the foreground and report properly
             return name, None, None
 
@@ -780,12 +804,17 @@ def model_check(ev, prop, tier):
     """The design: exhaustive TLC runs, wrong variants that must be rejected, witnesses that must be reached."""
     wit = {}
     if prop == 'C05':
-        prefetch('PersistentMC', [('blockafterclose', _cfg('Persistent_mc.cfg', BlockAfterClose='FALSE')),
+        settled_cfg = _cfg('Persistent_mc.cfg', Shapes='Sh_mc', DArgsSet='DA_mc', Settle='TRUE', MaxSteps=4 if tier == 'quick' else 5, MaxEnq=3,
+                           DTypes='DT_list' if tier == 'quick' else 'DT_all', DKwSet='DK_one' if tier == 'quick' else 'DK_mc')
+        live_cfg = _cfg('Persistent_mc.cfg', inv=[], MaxSteps=3, Kinds='K_proc', DArgsSet='DA_one', DKwSet='DK_one', Shapes='Sh_one') + 'PROPERTY Live_Returns\n'
+        prefetch('PersistentMC', [('mc-settled', settled_cfg, 6), ('live', live_cfg, 2), ('blockafterclose', _cfg('Persistent_mc.cfg', BlockAfterClose='FALSE')),
                                   ('prefix', open(os.path.join(tlc.SPEC, 'Persistent_prefix.cfg')).read())] +
                  [('closedguard', _cfg('Persistent_mc.cfg', ClosedGuard='FALSE')),
-                  ('mc-death', _cfg('Persistent_mc.cfg', Ops='Ops_c05death', MaxSteps=4)),
-                  ('enqcached', _cfg('Persistent_mc.cfg', Ops='Ops_c05death', MaxSteps=4, EnqChecksAlive='FALSE')),
-                  ('W_NoEnqueueOnUnobservedDead', _cfg('Persistent_mc.cfg', Ops='Ops_c05death', MaxSteps=4, inv=['W_NoEnqueueOnUnobservedDead']))] +
+                  ('mc-death', _cfg('Persistent_mc.cfg', Kinds='K_remote', DTypes='DT_list', DArgsSet='DA_one', DKwSet='DK_one', Ops='Ops_c05death', MaxSteps=4)),
+                  ('mc-iter', _cfg('Persistent_mc.cfg', Kinds='K_remote', DTypes='DT_list', DArgsSet='DA_one', DKwSet='DK_one', Ops='Ops_c05iter', MaxSteps=4)),
+                  ('iterdrops', _cfg('Persistent_mc.cfg', Kinds='K_remote', DTypes='DT_list', DArgsSet='DA_one', DKwSet='DK_one', Ops='Ops_c05iter', MaxSteps=4, IterExact='FALSE')),
+                  ('enqcached', _cfg('Persistent_mc.cfg', Kinds='K_remote', DTypes='DT_list', DArgsSet='DA_one', DKwSet='DK_one', Ops='Ops_c05death', MaxSteps=4, EnqChecksAlive='FALSE')),
+                  ('W_NoEnqueueOnUnobservedDead', _cfg('Persistent_mc.cfg', Kinds='K_remote', DTypes='DT_list', DArgsSet='DA_one', DKwSet='DK_one', Ops='Ops_c05death', MaxSteps=4, inv=['W_NoEnqueueOnUnobservedDead']))] +
                  [(w, _cfg('Persistent_mc.cfg', inv=[w])) for w in ('W_NoFullStream', 'W_NoLate', 'W_NoCleanCall', 'W_NoLongerArgs', 'W_NoBlockingReadAfterClose', 'W_NoEnqueueOnClosedRunning')])
     else:
         prefetch('PersistentMC', [(w, _cfg('Persistent_c17.cfg', inv=[w])) for w in ('W_NoRestartUnread', 'W_NoRestartRaised', 'W_NoRestartKilled', 'W_NoSecondRestart')] +
@@ -794,7 +823,9 @@ def model_check(ev, prop, tier):
                   for c, i in (('WaitTruthful', 'Inv_C17_FreshStream'), ('WaitTruthful', 'Inv_C17_RaisesNotAbandons'), ('TermOwnTimeout', 'Inv_C17_Live'),
                                ('AliveAsksServer', 'Inv_C17_RaisesNotAbandons'))] +
                  [('wrong-' + c, _cfg('Persistent_c17.cfg', **{c: 'FALSE'})) for c in ('FreshPipe', 'ResetClosed', 'CounterFirst', 'WaitSwallowsBadResult')] +
-                 [('W_NoRestartOfLingering', _cfg('Persistent_c17.cfg', inv=['W_NoRestartOfLingering'], Ops='Ops_c17timed')),
+                 [('mc-ownrun', _cfg('Persistent_c17.cfg', OwnRunScn='TRUE', MaxSteps=5)),
+                  ('forgetsrun', _cfg('Persistent_c17.cfg', inv=['Inv_C17_Live'], OwnRunScn='TRUE', RestartKeepsRun='FALSE')),
+                  ('W_NoRestartOfLingering', _cfg('Persistent_c17.cfg', inv=['W_NoRestartOfLingering'], Ops='Ops_c17timed')),
                   ('W_NoRestartWhileChildDiesByError', _cfg('Persistent_c17.cfg', inv=['W_NoRestartWhileChildDiesByError']))])
     if prop == 'C05':
         big = dict(MaxSteps=6, MaxEnq=2) if tier == 'thorough' else {}
@@ -802,15 +833,15 @@ def model_check(ev, prop, tier):
         ev.add_tlc('exhaustive, every interleaving: 3 kinds x list/tuple x defaults of length 0,1,3 x default kwargs x 3 enqueue shapes, histories of enqueue/next_result/close/wait/call/is_alive', r)
         if r.error:
             raise MachineryError('Persistent.tla violates its own properties: %s\n%s' % (r.error, '\n'.join(r.trace[:80])))
-        r2 = tlc.run('PersistentMC', cfg_text=_cfg('Persistent_mc.cfg', Shapes='Sh_mc', DArgsSet='DA_mc', Settle='TRUE', MaxSteps=4 if tier == 'quick' else 5, MaxEnq=3,
-                                              DTypes='DT_list' if tier == 'quick' else 'DT_all',
-                                              DKwSet='DK_one' if tier == 'quick' else 'DK_mc'),
-                     name='mc-settled', timeout=3000)
+        r2 = _sr('PersistentMC', cfg_text=settled_cfg, name='mc-settled', must_complete=True)
+        if not r2.completed and not r2.error:
+            raise MachineryError('TLC did not complete the settled configuration')
         ev.add_tlc('exhaustive, settled caller: 5 enqueue shapes (fewer/as many/more args, overriding/new kwargs, None result), longer histories', r2)
         if r2.error:
             raise MachineryError('Persistent.tla (settled) violates its own properties: %s\n%s' % (r2.error, '\n'.join(r2.trace[:80])))
-        rl = tlc.run('PersistentMC', cfg_text=_cfg('Persistent_mc.cfg', inv=[], MaxSteps=3, Kinds='K_proc', DArgsSet='DA_one', DKwSet='DK_one', Shapes='Sh_one') + 'PROPERTY Live_Returns\n',
-                     name='live', timeout=1200)
+        rl = _sr('PersistentMC', cfg_text=live_cfg, name='live', must_complete=True)
+        if not rl.completed and not rl.error:
+            raise MachineryError('TLC did not complete the liveness configuration')
         ev.add_tlc('liveness: every blocked call of an enabled history returns', rl)
         if rl.error:
             raise MachineryError('liveness Live_Returns fails in the model: %s' % rl.error)
@@ -818,18 +849,26 @@ def model_check(ev, prop, tier):
         if rb.error != 'invariant:Inv_C05_End':
             raise MachineryError('non-blocking read of a closed but still working worker is not rejected by the model checker: %s' % rb.error)
         wit['variant_BlockAfterClose_FALSE'] = rb.error
-        rd = _sr('PersistentMC', cfg_text=_cfg('Persistent_mc.cfg', Ops='Ops_c05death', MaxSteps=4), name='mc-death', must_complete=True)
+        rd = _sr('PersistentMC', cfg_text=_cfg('Persistent_mc.cfg', Kinds='K_remote', DTypes='DT_list', DArgsSet='DA_one', DKwSet='DK_one', Ops='Ops_c05death', MaxSteps=4), name='mc-death', must_complete=True)
         ev.add_tlc('exhaustive, every interleaving: histories in which the child dies on its own (target raises) before further enqueue / call', rd)
         if rd.error or not rd.completed:
             raise MachineryError('Persistent.tla (death on its own) violates its own properties: %s' % rd.error)
-        re_ = _sr('PersistentMC', cfg_text=_cfg('Persistent_mc.cfg', Ops='Ops_c05death', MaxSteps=4, EnqChecksAlive='FALSE'), name='enqcached', must_complete=False)
+        re_ = _sr('PersistentMC', cfg_text=_cfg('Persistent_mc.cfg', Kinds='K_remote', DTypes='DT_list', DArgsSet='DA_one', DKwSet='DK_one', Ops='Ops_c05death', MaxSteps=4, EnqChecksAlive='FALSE'), name='enqcached', must_complete=False)
         if re_.error != 'invariant:Inv_C05_Closed':
             raise MachineryError('enqueue testing the cached _dead flag is not rejected by the model checker: %s' % re_.error)
         wit['variant_EnqChecksAlive_FALSE'] = re_.error
-        rw_ = _sr('PersistentMC', cfg_text=_cfg('Persistent_mc.cfg', Ops='Ops_c05death', MaxSteps=4, inv=['W_NoEnqueueOnUnobservedDead']), name='W_NoEnqueueOnUnobservedDead', must_complete=False)
+        rw_ = _sr('PersistentMC', cfg_text=_cfg('Persistent_mc.cfg', Kinds='K_remote', DTypes='DT_list', DArgsSet='DA_one', DKwSet='DK_one', Ops='Ops_c05death', MaxSteps=4, inv=['W_NoEnqueueOnUnobservedDead']), name='W_NoEnqueueOnUnobservedDead', must_complete=False)
         if rw_.error != 'invariant:W_NoEnqueueOnUnobservedDead':
             raise MachineryError('witness W_NoEnqueueOnUnobservedDead not reachable: %s' % rw_.error)
         wit['W_NoEnqueueOnUnobservedDead'] = 'reached'
+        ri = _sr('PersistentMC', cfg_text=_cfg('Persistent_mc.cfg', Kinds='K_remote', DTypes='DT_list', DArgsSet='DA_one', DKwSet='DK_one', Ops='Ops_c05iter', MaxSteps=4), name='mc-iter', must_complete=True)
+        ev.add_tlc('exhaustive, every interleaving: histories with results_iter(maxitems=1) between other reads', ri)
+        if ri.error or not ri.completed:
+            raise MachineryError('Persistent.tla (bounded results_iter) violates its own properties: %s' % ri.error)
+        rx = _sr('PersistentMC', cfg_text=_cfg('Persistent_mc.cfg', Kinds='K_remote', DTypes='DT_list', DArgsSet='DA_one', DKwSet='DK_one', Ops='Ops_c05iter', MaxSteps=4, IterExact='FALSE'), name='iterdrops', must_complete=False)
+        if not (rx.error or '').startswith('invariant:Inv_C05_'):
+            raise MachineryError('results_iter(maxitems) dropping a result is not rejected by the model checker: %s' % rx.error)
+        wit['variant_IterExact_FALSE'] = rx.error
         rg = _sr('PersistentMC', cfg_text=_cfg('Persistent_mc.cfg', ClosedGuard='FALSE'), name='closedguard', must_complete=False)
         if rg.error != 'invariant:Inv_C05_Closed':
             raise MachineryError('enqueue on a closed, still running process worker raising OSError is not rejected by the model checker: %s' % rg.error)
@@ -858,6 +897,14 @@ def model_check(ev, prop, tier):
         ev.add_tlc('exhaustive, every interleaving with time: restart(timeout=t) against a busy target / a frontend still rebuilding a result (wait(t), then terminate() with its own grace)', rt_)
         if rt_.error:
             raise MachineryError('Persistent.tla (timed restarts) violates its own C17 properties: %s\n%s' % (rt_.error, '\n'.join(rt_.trace[:80])))
+        ro_ = _sr('PersistentMC', cfg_text=_cfg('Persistent_c17.cfg', OwnRunScn='TRUE', MaxSteps=5), name='mc-ownrun', must_complete=True)
+        ev.add_tlc('exhaustive: the same for a worker that overrides run() (target=None, run=True)', ro_)
+        if ro_.error or not ro_.completed:
+            raise MachineryError('Persistent.tla (own run()) violates its own C17 properties: %s' % ro_.error)
+        rk_ = _sr('PersistentMC', cfg_text=_cfg('Persistent_c17.cfg', inv=['Inv_C17_Live'], OwnRunScn='TRUE', RestartKeepsRun='FALSE'), name='forgetsrun', must_complete=False)
+        if rk_.error != 'invariant:Inv_C17_Live':
+            raise MachineryError('restart() forgetting run=True is not rejected by the model checker: %s' % rk_.error)
+        wit['variant_RestartKeepsRun_FALSE'] = rk_.error
         rw = _sr('PersistentMC', cfg_text=_cfg('Persistent_c17.cfg', inv=['W_NoRestartWhileChildDiesByError']), name='W_NoRestartWhileChildDiesByError', must_complete=False)
         if rw.error != 'invariant:W_NoRestartWhileChildDiesByError':
             raise MachineryError('witness W_NoRestartWhileChildDiesByError not reachable: %s' % rw.error)
@@ -1040,6 +1087,18 @@ def run(prop, tier, replay=None):
         for k_, h in dp:
             add(k_, h)['mut'] = False
         ev.cov['death_then_enqueue_replays'] = len(dp)
+        # bounded results_iter(maxitems=1) followed by further reads (histories from TLC)
+        ip = [(k_, h) for k_, h in dump_paths(ev, 'Persistent_paths.cfg', 'C05 results_iter(maxitems=1) between other reads', Kinds='K_all',
+                                             Ops='Ops_c05iter', MaxSteps=4 if quick else 5)
+              if any(s[0] == 'iter1' for s in h)]
+        ith = [h for k_, h in ip if k_ == 'thread']
+        for h in (ith if len(ith) <= 600 else rng.sample(ith, 600)):
+            add('thread', h)
+        for kind in ('process', 'remote'):
+            cand = [h for k_, h in ip if k_ == kind and sum(1 for s in h if s[0] == 'enq') >= 2]
+            for h in rng.sample(cand, min(len(cand), 16 if quick else 200)):
+                add(kind, h)
+        ev.cov['bounded_results_iter_replays'] = sum(1 for j in jobs if any(s[0] == 'iter1' for s in j['hist']))
     else:
         n_exh = 0
         allp = dump_paths(ev, 'Persistent_c17paths.cfg', 'C17 settled, 3 kinds', Kinds='K_all',
@@ -1074,6 +1133,16 @@ def run(prop, tier, replay=None):
     if only:
         jobs = [j for j in jobs if j['kind'] in only.split(',')]
     if prop == 'C17':
+        # workers that override run() (target=None, run=True): a fifth of the restart histories, and the bare ones always
+        plain = [j for j in jobs if j['mode'] == 'settle' and not j.get('timed')
+                 and all(s[0] in ('enq', 'nextnb', 'close', 'restart', 'restartP', 'kill', 'term') for s in j['hist'])]
+        for j in rng.sample(plain, len(plain) // 5):
+            j['ownrun'], j['mut'] = True, False
+        for kind in KINDS:
+            for ops_ in (['restart'], ['enq', 'restart', 'enq'], ['restartP', 'enq', 'restart', 'enq']):
+                j = add(kind, [[o, '?', 'F', 'idle', 0] for o in ops_], mode='eager')
+                j['ownrun'], j['timed'] = True, True
+        ev.cov['own_run_replays'] = sum(1 for j in jobs if j.get('ownrun'))
         # restart() of a live, busy worker whose child dies meanwhile by an exception pickle cannot rebuild (un-settled,
         # slow target: restart is blocked in wait() when the child reaches the bad input); judged by TLC only
         for kind in KINDS:
